@@ -429,8 +429,9 @@ type tcpServer struct {
 	M                *RecMetrics
 	Timeout          time.Duration
 	ln               service.StreamListener
-	Served           bool // StreamServe returned
-	handlersAtReturn int  // connection handlers still alive when it returned
+	Served           bool         // StreamServe returned
+	handlersAtReturn int          // connection handlers still alive when it returned
+	Handled          map[int]bool // connections (ledger ids) that StreamServe passed to the handler
 	handler          service.StreamHandler
 }
 
@@ -503,8 +504,10 @@ func startTCPServer(rc *RunCtx, w *simnet.World, o tcpServerOpts) *tcpServer {
 	// after the handler returned is the server's own business)
 	inner := handle
 	entered, returned := 0, 0
+	s.Handled = map[int]bool{}
 	handle = func(ctx context.Context, conn transport.StreamConn) {
 		entered++
+		s.Handled[connIDOf(conn)] = true
 		defer func() { returned++ }()
 		inner(ctx, conn)
 	}
